@@ -757,3 +757,72 @@ def precision_lint(chk, repo, rule, paths, floor_funcs=5):
                    method='declared C types of locals and parameters (Cython front-end) x uses in arithmetic')
     if nf < floor_funcs:
         raise AnalysisError(f'precision lint for {rule}: only {nf} functions scanned')
+
+
+
+# ------------------------------------------------------------------------------------------------ who may write a registry
+_MUTATORS = ('append', 'extend', 'update', 'insert', 'add', 'setdefault', 'pop', 'popitem', 'clear', 'remove', 'sort', 'reverse', 'discard', '__setitem__', '__delitem__')
+
+
+def registry_writers(chk, rule, repo, owner_relpath, names, floor=None):
+    """The checks read a lookup table as the owner module's top-level statements build it.  That is what every caller sees only if nothing else writes it: no other module
+    (through an imported name or an attribute of the owner module) and no function body of the owner may store into, delete from or call a mutating method on it."""
+    import os
+
+    def chain(x):
+        """names along a subscript / attribute chain: registry[22], helper.registry[22][2], ..."""
+        out = []
+        while isinstance(x, (ast.Subscript, ast.Attribute, ast.Call)):
+            if isinstance(x, ast.Attribute): out.append(x.attr)
+            x = x.value if not isinstance(x, ast.Call) else x.func
+        if isinstance(x, ast.Name): out.append(x.id)
+        return out
+    names = set(names)
+    found = {n_: [] for n_ in names}
+    nmods = 0
+    for dotted in repo.all_modules():
+        rel = dotted.replace('.', '/')
+        path = None
+        for cand in (rel + '.py', rel + '/__init__.py'):
+            if os.path.exists(os.path.join(repo.root, cand)): path = cand
+        if path is None:
+            continue                       # .pyx: cannot reach a Python dict of another module without going through the interpreter; the pyx front-end does not import them
+        try:
+            tree = ast.parse(open(os.path.join(repo.root, path)).read())
+        except SyntaxError:
+            continue
+        nmods += 1
+        owner = path == owner_relpath
+        # aliases: `from owner import registry as r`, `r2 = registry`
+        alias = {n_: n_ for n_ in names}
+        for n_ in ast.walk(tree):
+            if isinstance(n_, ast.ImportFrom):
+                for a_ in n_.names:
+                    if a_.name in names: alias[a_.asname or a_.name] = a_.name
+            elif isinstance(n_, ast.Assign) and len(n_.targets) == 1 and isinstance(n_.targets[0], ast.Name) and not owner:
+                c_ = chain(n_.value)
+                if c_ and len(c_) <= 2 and alias.get(c_[0]) in names and not isinstance(n_.value, ast.Call):
+                    alias[n_.targets[0].id] = alias[c_[0]]
+
+        def scan(body, in_func):
+            for st in body:
+                if isinstance(st, (ast.FunctionDef, ast.AsyncFunctionDef)):
+                    scan(st.body, True); continue
+                if isinstance(st, ast.ClassDef):
+                    scan(st.body, in_func); continue
+                for n_ in ast.walk(st):
+                    tgt = None
+                    if isinstance(n_, (ast.FunctionDef, ast.Lambda)): continue
+                    if isinstance(n_, ast.Call) and isinstance(n_.func, ast.Attribute) and n_.func.attr in _MUTATORS: tgt = n_.func.value
+                    elif isinstance(n_, (ast.Subscript, ast.Attribute)) and isinstance(n_.ctx, (ast.Store, ast.Del)): tgt = n_.value
+                    if tgt is None: continue
+                    for nm in chain(tgt):
+                        real = alias.get(nm)
+                        if real in names and (not owner or in_func):
+                            found[real].append(f'{path}:{n_.lineno} `{ast.unparse(n_)[:70]}`')
+        scan(tree.body, False)
+    for n_ in sorted(names):
+        chk.ob(rule, f'{owner_relpath}:{n_} is written only by the top-level statements of the module that defines it (what the checks read is what every caller sees)', not found[n_],
+               '; '.join(found[n_][:3]), owner_relpath, key=f'{rule}|writers|{n_}', method=f'who-may-write scan over {nmods} modules (stores, deletes and mutating calls on the name, its aliases and attributes)')
+    if nmods < 100:
+        raise AnalysisError(f'registry writer scan: only {nmods} modules parsed')
